@@ -7,6 +7,8 @@ use vstd::std_specs::iter::{IteratorSpec, IteratorSpecImpl};
 verus! {
 
 //@@include c32_merge/json_shim.rs
+//@@include c32_merge/spec.rs
+//@@include c32_merge/lemmas.rs
 
 //@@ FlattenConfigObject
 impl FlattenConfigObject {
